@@ -1,4 +1,215 @@
-import Sigc.Basic
-/-! property theorems for C11 (stub, replaced by the real statements) -/
+import Sigc.AdaptLemmas
+/-!
+  C11 — references stay references and values stay intact along the call path.
+
+  Model (`Sigc/Adapt.lean`, part 4): an argument is `(object identity, value category, designated object)`; every hop of
+  every call operator (`adaptor_functor`, `bind`, `hide`, `retype`, `retype_return`, `bind_return`, `compose`,
+  `exception_catch`, `track_obj`, `slot::operator()`, `slot_call::call_it`, the emit loops) either hands on the very
+  object or constructs a new one, according to the *declared parameter kind of that operator in the current code*,
+  which is the explicit table `paramKind`.  The theorems are proved for the table as it is (all `forwardingRef`);
+  `f5_witness` shows that they fail for the table of the unrepaired code.
+
+  Known limit (finding F7, `rref_witness`): a `T&&` signal parameter that passes `bind`/`hide` below a forwarding
+  adaptor is move-constructed into a `std::tuple<T>`; for `T&&` the identity theorem is proved for chains of
+  forwarding call operators only (`rref_forwarders`).
+-/
 namespace Sigc.C11
+open Sigc.Adapt
+
+theorem paramKind_forwarding : ∀ k, paramKind k = .forwardingRef := by
+  intro k; cases k <;> rfl
+
+/-- a concrete heap for the examples: emitter objects 0 and 1, a bound object 100 -/
+def h0 : Heap :=
+  { next := 1000, val := fun x => if x = 0 then 7 else if x = 1 then 5 else if x = 100 then 40 else 0,
+    copies := fun _ => 0, moves := fun _ => 0, hops := fun _ => 0, log := [] }
+
+theorem logOK_iff (h : Heap) :
+    logOK h = true ↔ ∀ r ∈ h.log, ∀ p ∈ r.params, ∀ o, p.origin = some o → p.src = o := by
+  simp only [logOK, List.all_eq_true, Rec.ok, Param.ok]
+  constructor
+  · intro hh r hr p hp o ho
+    have := hh r hr p hp
+    simpa [ho] using this
+  · intro hh r hr p hp
+    cases ho : p.origin with
+    | none => rfl
+    | some o => simpa using hh r hr p hp o ho
+
+theorem emitterArg_inv (n0 : Nat) (k : PK) (o : Nat) (hk : k ≠ .rref) : ArgInv n0 (emitterArg k o) :=
+  takeParam_inv k _ hk ⟨Or.inl rfl, fun o' ho' => by simpa using ho'⟩
+
+theorem emitter_args_inv (n0 : Nat) (sig : List PK) (objs : List Nat) (hsig : sig.contains .rref = false) :
+    ∀ a ∈ List.zipWith emitterArg sig objs, ArgInv n0 a := by
+  intro a ha
+  obtain ⟨k, hk, o, _, rfl⟩ := mem_zipWith ha
+  apply emitterArg_inv
+  intro e
+  subst e
+  simp [hk] at hsig
+
+theorem emit_inv (sig : List PK) (objs : List Nat) (slots : List OSlot) (h : Heap)
+    (hsig : sig.contains .rref = false) (hslots : ∀ s ∈ slots, s.f.noRRef = true) (hlog : logOK h = true) :
+    HeapInv h.next h.hops (emitVoidO paramKind sig objs slots h).1
+      ∧ HeapInv h.next h.hops (emitValueO paramKind sig objs slots h).1 := by
+  have hi : HeapInv h.next h.hops h := ⟨Nat.le_refl _, fun _ _ => rfl, hlog⟩
+  have hargs := emitter_args_inv h.next sig objs hsig
+  constructor
+  · exact emitVoid_inv (HeapInv h.next h.hops) _ _ slots
+      (fun s hs h' hi' => callO_inv paramKind paramKind_forwarding s.f true _ h' (hslots s hs) hi' hargs) h hi
+  · simp only [emitValueO]
+    rw [emitValue_eq_loop]
+    refine emitLoop_inv (HeapInv h.next h.hops) _ _ slots
+      (fun s hs h' hi' => callO_inv paramKind paramKind_forwarding s.f true _ h' (hslots s hs) hi' ?_) h _ hi
+    intro a ha
+    obtain ⟨a', ha', rfl⟩ := List.mem_map.mp ha
+    exact named_inv a' (hargs a' ha')
+
+/-- **Identity.**  For every signature whose positions are declared `T`, `T&` or `const T&`, every list of slots, every
+    adaptor expression in every slot (any nesting depth): each parameter of each invoked target that is designated to be
+    the emitter's object `o` (or the `std::ref`-bound object `o`) is fed from the very object `o` — so what slot `i`
+    writes through a reference, slot `j > i` and the emitter read.  Both emit loops. -/
+theorem ref_identity (sig : List PK) (objs : List Nat) (slots : List OSlot) (h : Heap)
+    (hsig : sig.contains .rref = false) (hslots : ∀ s ∈ slots, s.f.noRRef = true) (hlog : logOK h = true) :
+    (∀ r ∈ (emitVoidO paramKind sig objs slots h).1.log, ∀ p ∈ r.params, ∀ o, p.origin = some o → p.src = o)
+    ∧ (∀ r ∈ (emitValueO paramKind sig objs slots h).1.log, ∀ p ∈ r.params, ∀ o, p.origin = some o → p.src = o) := by
+  have := emit_inv sig objs slots h hsig hslots hlog
+  exact ⟨(logOK_iff _).mp this.1.log_ok, (logOK_iff _).mp this.2.log_ok⟩
+
+-- non-vacuity: hide(hide_return(g)) and bind(f, std::ref(b)) on signal<void(Obj&, Obj)>; the second slot and the
+-- emitter see what the first wrote (7 -> 107 -> 307), the bound object is written through the reference
+example :
+    let slots : List OSlot :=
+      [⟨false, false, .un (.hide none) (.un .hideReturn (.leaf 0 true [.lref] true))⟩,
+       ⟨false, false, .un (.bind none [.byRef 100]) (.leaf 1 false [.lref, .cref, .lref] false)⟩]
+    let h := (emitVoidO paramKind [.lref, .val] [0, 1] slots h0).1
+    ([PK.lref, PK.val].contains .rref = false) ∧ (slots.all (fun s => s.f.noRRef)) = true ∧ logOK h0 = true
+    ∧ h.log = [⟨0, [⟨some 0, 0, 7⟩]⟩, ⟨1, [⟨some 0, 0, 107⟩, ⟨some 1, 1, 5⟩, ⟨some 100, 100, 40⟩]⟩]
+    ∧ h.val 0 = 307 ∧ h.val 1 = 5 ∧ h.val 100 = 242 := by decide
+
+/-- **Bound references.**  Under the same hypotheses no object that exists before the emission — in particular no
+    object bound with `std::ref` / `std::cref`, and none of the emitter's — is ever copied or moved by a library call
+    operator (`hops` counts the constructions made inside the library; only declared by-value parameters copy), and
+    `bound_argument<reference_wrapper<T>>::invoke()` designates and yields the bound object itself. -/
+theorem bound_ref_identity (sig : List PK) (objs : List Nat) (slots : List OSlot) (h : Heap)
+    (hsig : sig.contains .rref = false) (hslots : ∀ s ∈ slots, s.f.noRRef = true) (hlog : logOK h = true) :
+    (∀ o, o < h.next → (emitVoidO paramKind sig objs slots h).1.hops o = h.hops o
+                     ∧ (emitValueO paramKind sig objs slots h).1.hops o = h.hops o)
+    ∧ (∀ o, (Bound.byRef o).invoke = ⟨o, .lv, some o⟩ ∧ (Bound.byCRef o).invoke = ⟨o, .clv, some o⟩) := by
+  have := emit_inv sig objs slots h hsig hslots hlog
+  exact ⟨fun o ho => ⟨this.1.hops_eq o ho, this.2.hops_eq o ho⟩, fun o => ⟨rfl, rfl⟩⟩
+
+example :
+    let slots : List OSlot :=
+      [⟨false, false, .un (.bind (some 0) [.byRef 100, .byCRef 101, .byVal 200]) (.leaf 0 false [.lref, .cref, .val, .lref] true)⟩]
+    let h := (emitValueO paramKind [.lref] [0] slots h0).1
+    h.log = [⟨0, [⟨some 100, 100, 40⟩, ⟨some 101, 101, 0⟩, ⟨some 200, 200, 0⟩, ⟨some 0, 0, 7⟩]⟩]
+    ∧ h.copies 100 = 0 ∧ h.hops 100 = 0 ∧ h.copies 200 = 1 ∧ h.hops 200 = 0 := by decide
+
+theorem emitterArg_frame (sig : List PK) (objs : List Nat) (o : Nat)
+    (hconst : ∀ a ∈ List.zipWith emitterArg sig objs, a.cat ≠ .clv → a.obj ≠ o) :
+    ∀ a ∈ List.zipWith emitterArg sig objs, NoW o a := hconst
+
+/-- **Values stay intact.**  An object `o` that the emitter passes only at positions declared by value or `const&`
+    (and that no slot holds through `std::ref` or as its own bound copy) has the same value after the emission as
+    before — for every list of slots, hence at every slot boundary: whatever earlier slots did, every later slot is
+    handed the emitted value (targets see `const T&` to `o`, or their own copy). -/
+theorem value_intact (sig : List PK) (objs : List Nat) (slots : List OSlot) (h : Heap) (o : Nat) (ho : o < h.next)
+    (hconst : ∀ a ∈ List.zipWith emitterArg sig objs, a.cat ≠ .clv → a.obj ≠ o)
+    (hb : ∀ s ∈ slots, o ∉ s.f.boundMut) :
+    (emitVoidO paramKind sig objs slots h).1.val o = h.val o
+    ∧ (emitValueO paramKind sig objs slots h).1.val o = h.val o := by
+  have hf : Frame o (h.val o) h := ⟨ho, rfl⟩
+  constructor
+  · exact (emitVoid_inv (Frame o (h.val o)) _ _ slots
+      (fun s hs h' hf' => callO_frame paramKind paramKind_forwarding s.f true _ h' (hb s hs) hf' hconst) h hf).val
+  · simp only [emitValueO]
+    rw [emitValue_eq_loop]
+    refine (emitLoop_inv (Frame o (h.val o)) _ _ slots
+      (fun s hs h' hf' => callO_frame paramKind paramKind_forwarding s.f true _ h' (hb s hs) hf' ?_) h _ hf).val
+    intro a ha
+    obtain ⟨a', ha', rfl⟩ := List.mem_map.mp ha
+    exact named_frame a' (hconst a' ha')
+
+-- non-vacuity: signal<void(Obj)>; the first target mutates its by-value parameter, the second and third and the
+-- emitter still see 7
+example :
+    let slots : List OSlot :=
+      [⟨false, false, .leaf 0 false [.val] false⟩, ⟨false, false, .un .hideReturn (.leaf 1 true [.val] true)⟩,
+       ⟨false, false, .leaf 2 true [.cref] false⟩]
+    let h := (emitVoidO paramKind [.val] [0] slots h0).1
+    (∀ a ∈ List.zipWith emitterArg [PK.val] [0], a.cat ≠ .clv → a.obj ≠ 0)
+    ∧ h.log = [⟨0, [⟨some 0, 0, 7⟩]⟩, ⟨1, [⟨some 0, 0, 7⟩]⟩, ⟨2, [⟨some 0, 0, 7⟩]⟩] ∧ h.val 0 = 7
+    ∧ h.val 1000 = 107 := by decide
+
+/-- **Results.**  With at least one callable slot the value emission returns exactly what the last callable slot
+    returned (never `T_return()`, never an earlier slot's value). -/
+theorem result_not_defaulted (sig : List PK) (objs : List Nat) (pre : List OSlot) (last : OSlot) (post : List OSlot)
+    (h h' : Heap) (r' : Option Int) (hl : last.callable = true) (hpost : ∀ s ∈ post, s.callable = false)
+    (hpre : emitValueO paramKind sig objs pre h = (h', .ok r')) :
+    emitValueO paramKind sig objs (pre ++ last :: post) h
+      = callO paramKind last.f true ((List.zipWith emitterArg sig objs).map (fun a => { a with cat := a.cat.named })) h' :=
+  emitValue_last OSlot.callable _ (some 0) pre last post h h' r' hl hpost hpre
+
+example :
+    let s1 : OSlot := ⟨false, false, .leaf 0 true [.cref] true⟩
+    let s2 : OSlot := ⟨false, false, .un (.bindReturn 55) (.leaf 1 true [.cref] false)⟩
+    let s3 : OSlot := ⟨false, true, .leaf 2 true [.cref] true⟩
+    (emitValueO paramKind [.cref] [0] [s1, s2, s3] h0).2 = .ok (some 55)
+    ∧ (emitValueO paramKind [.cref] [0] [s1] h0).2 = .ok (some 1007)
+    ∧ (emitValueO paramKind [.cref] [0] [s3] h0).2 = .ok (some 0) := by decide
+
+/-- the parameter kinds of the unrepaired code: `retype_return_functor<void>::operator()(T_arg... a)` -/
+def tableF5 : AdaptorKind → ParamKind
+  | .retypeReturnVoid => .byValue
+  | _ => .forwardingRef
+
+/-- **F5 witness.**  With a by-value entry in the table the identity theorem is false:
+    `signal<void(Obj&, Obj)>`, `hide(hide_return(g))` — `g` receives a copy (object 1000) of the emitter's object 0 and
+    the emitter's object keeps its value. -/
+theorem f5_witness :
+    let slots : List OSlot := [⟨false, false, .un (.hide none) (.un .hideReturn (.leaf 0 true [.lref] true))⟩]
+    let h := (emitVoidO tableF5 [.lref, .val] [0, 1] slots h0).1
+    h.log = [⟨0, [⟨some 0, 1000, 7⟩]⟩] ∧ logOK h = false ∧ h.val 0 = 7 ∧ h.hops 0 = 1
+    ∧ logOK (emitVoidO paramKind [.lref, .val] [0, 1] slots h0).1 = true := by decide
+
+/-- **F7 witness (known finding).**  For a `T&&` parameter the identity statement is false of the current code:
+    `signal<void(Obj&&, Obj)>` with `hide_return(hide(f))` connected twice — inside `hide`, `T_arg` is deduced as `Obj`,
+    `std::tuple<Obj>` move-constructs from the emitter's object: the targets receive copies and the second slot sees
+    the moved-from value. -/
+theorem rref_witness :
+    let f : OExpr := .un .hideReturn (.un (.hide none) (.leaf 0 true [.cref] true))
+    let h := (emitVoidO paramKind [.rref, .val] [0, 1] [⟨false, false, f⟩, ⟨false, false, f⟩] h0).1
+    h.log = [⟨0, [⟨some 0, 1000, 7⟩]⟩, ⟨0, [⟨some 0, 1001, movedMark⟩]⟩] ∧ logOK h = false
+    ∧ h.val 0 = movedMark ∧ h.moves 0 = 2 ∧ h.hops 0 = 2 := by decide
+
+theorem emitterArg_obj (k : PK) (o : Nat) : ObjInv (emitterArg k o) := by
+  unfold ObjInv
+  intro o' ho'
+  cases k <;> simp_all [emitterArg, takeParam]
+
+/-- **`T&&` through forwarding call operators** (`retype_return`, `hide_return`, `bind_return`, `compose`,
+    `exception_catch`, `track_obj`, and plain targets): for every signature — `T&&` positions included — every target
+    parameter designated `o` is fed from `o`, and no pre-existing object is copied or moved inside the library. -/
+theorem rref_forwarders (sig : List PK) (objs : List Nat) (slots : List OSlot) (h : Heap)
+    (hslots : ∀ s ∈ slots, s.f.fwdOnly = true) (hlog : logOK h = true) :
+    (∀ r ∈ (emitVoidO paramKind sig objs slots h).1.log, ∀ p ∈ r.params, ∀ o, p.origin = some o → p.src = o)
+    ∧ (∀ o, o < h.next → (emitVoidO paramKind sig objs slots h).1.hops o = h.hops o) := by
+  have hi : HeapInv h.next h.hops h := ⟨Nat.le_refl _, fun _ _ => rfl, hlog⟩
+  have hargs : ∀ a ∈ List.zipWith emitterArg sig objs, ObjInv a := by
+    intro a ha
+    obtain ⟨k, _, o, _, rfl⟩ := mem_zipWith ha
+    exact emitterArg_obj k o
+  have : HeapInv h.next h.hops (emitVoidO paramKind sig objs slots h).1 :=
+    emitVoid_inv (HeapInv h.next h.hops) _ _ slots
+      (fun s hs h' hi' => callO_fwd_inv paramKind paramKind_forwarding s.f true _ h' (hslots s hs) hi' hargs) h hi
+  exact ⟨(logOK_iff _).mp this.log_ok, this.hops_eq⟩
+
+example :
+    let slots : List OSlot :=
+      [⟨false, false, .un .hideReturn (.leaf 0 true [.rref] true)⟩, ⟨false, false, .un .trackObj (.leaf 1 false [.cref] false)⟩]
+    let h := (emitVoidO paramKind [.rref] [0] slots h0).1
+    (slots.all (fun s => s.f.fwdOnly)) = true
+    ∧ h.log = [⟨0, [⟨some 0, 0, 7⟩]⟩, ⟨1, [⟨some 0, 0, 107⟩]⟩] ∧ h.moves 0 = 0 := by decide
+
 end Sigc.C11
